@@ -60,6 +60,7 @@ def gen_spec(seed: int, idx: int, tier: str):
     spec["missing_tmp"] = rng.random() < 0.03
     if spec["missing_tmp"]:
         spec["decoys"] = {k: v for k, v in spec["decoys"].items() if not k.startswith(("tmp/", "alt-tmp/"))}
+    spec["symlink_tmp"] = (not spec["missing_tmp"]) and rng.random() < 0.06
     spec["t0"] = procworld.T0 + rng.choice([0, 0, 86400 * 200, -86400 * 3000, 86400 * 9000, 86400 * 0.9])
     spec["tz"] = inp["tz"] if dst else rng.choice(TZ_KNOB)
     if mode == "channels" or rng.random() < 0.3:
